@@ -35,8 +35,13 @@ def check_block_header_proof(root_cell: "Cell", block_hash: bytes, store_state_h
     if root_hash != block_hash:
         raise ProofError('Block header proof error: hashes unmatch')
     if store_state_hash:
-        state_update = root_cell[2][1]
-        return state_update.get_hash(0)
+        state_update_cell = root_cell[2]
+        new_state = state_update_cell[1]
+        # the block hash covers the update cell's data (old_hash, new_hash) and its children's level-1 hashes only: the child's
+        # level-0 hash is the committed state hash only when it equals the stored new_hash (a twice-pruned child carries both)
+        if state_update_cell.type_ != CellTypes.merkle_update or state_update_cell.data[33:65] != new_state.get_hash(0):
+            raise ProofError('Block header proof error: invalid Merkle update in block')
+        return new_state.get_hash(0)
     return
 
 
